@@ -607,6 +607,32 @@ Proof.
   - intros Hf. cbn [step sts set_sts]. rewrite Hf. cbn. eexists. repeat split.
 Qed.
 
+(* a start call that fails before srv.started is set (bad network, no TLS
+   certificates, listen error, no listeners) leaves the server as it was: not
+   started; Shutdown gets the not-started error at once; a retry can start *)
+Lemma failed_listen_unstarted s s' i :
+  step s (StFail i) = Some s' ->
+  ph s <> Running /\ ph s' = ph s /\ serve s' = serve s /\ workers s' = workers s /\ wg s' = wg s /\
+  shut s' = shut s /\ sds s' = sds s /\ lclosed s' = lclosed s /\ pcdl s' = pcdl s /\
+  find_a i (sts s') = Some StDone /\
+  (forall j, find_a j (sds s') = Some SdPending ->
+     exists s1 s2, step s' (SdAtomic j) = Some s1 /\ step s1 (SdReturn j ResNotStarted) = Some s2 /\
+                   find_a j (sds s2) = Some (SdDone ResNotStarted)) /\
+  (forall k, ph s = Fresh -> find_a k (sts s') = Some StPending ->
+     exists s1, step s' (StAtomic k) = Some s1 /\ ph s1 = Running /\ serve s1 = SInit).
+Proof.
+  intros H. cbn [step] in H.
+  destruct (find_a i (sts s)) as [[]|] eqn:Ef; try discriminate.
+  destruct (is_running s) eqn:Er; [discriminate|]. inversion H; subst; clear H.
+  pose proof (is_running_false s Er) as Hp. cbn.
+  repeat split; try assumption.
+  - apply (find_a_upd i StDone StPending _ Ef).
+  - intros j Hj.
+    assert (Hp' : ph (set_sts s (upd_a i StDone (sts s))) <> Running) by (cbn; assumption).
+    destruct (shutdown_unstarted _ j Hp' Hj) as [s1 [s2 [A [B [C _]]]]]. eauto.
+  - intros k Hfr Hk. cbn [step sts set_sts]. rewrite Hk. cbn [ph set_sts]. rewrite Hfr. eexists. repeat split.
+Qed.
+
 (* ---------------------------------------------------------- non-vacuity *)
 Definition ex_tcp_trace : list label :=
   [StInvoke 0; StAtomic 0; Notify; SCheck; SAcceptOk 1; SSpawn; WCheck 1; WSetDl 1; Req 1; HEnter 1;
@@ -772,3 +798,16 @@ Example ex_accepts_lives :
                         [StInvoke 0; Notify; SPacket 1; HEnter 1; SdInvoke 0; SdReturn 0 ResNil]] 0 = LRej 1 5
   /\ accepts_lives TCP [[StInvoke 0; Notify; SdInvoke 0; SAcceptErr; SReturn RNil]; [StInvoke 0; Notify]] 0 = LNotOver 0.
 Proof. vm_compute. repeat split. Qed.
+
+(* failed starts (no listeners / bad network), Shutdown of the unstarted server, retry *)
+Example ex_failed_listen :
+  exists s, run (init TCP) [StInvoke 0; StFail 0; SdInvoke 1; SdAtomic 1; SdReturn 1 ResNotStarted;
+                            StInvoke 2; StFail 2; StInvoke 3; StAtomic 3; Notify] = Some s /\
+            ph s = Running /\ serve s = SLoop /\ In (1, SdDone ResNotStarted) (sds s) /\ find_a 0 (sts s) = Some StDone.
+Proof. match goal with |- exists s, ?r = Some s /\ _ => remember r as rr eqn:E; vm_compute in E; subst rr end. eexists. split; [reflexivity|]. cbn. auto. Qed.
+Example ex_accepts_failed_listen :
+  (exists n, accepts TCP [StInvoke 0; StFail 0; SdInvoke 1; SdReturn 1 ResNotStarted; StInvoke 2; Notify] = inr (Some n))
+  /\ accepts TCP [StInvoke 0; StFail 0; SdInvoke 1; SdCtx 1] = inl 3
+  /\ accepts TCP [StInvoke 0; StFail 0; StInvoke 2; StReturnErr 2] = inl 3
+  /\ accepts TCP [StInvoke 0; Notify; StInvoke 1; StFail 1] = inl 3.
+Proof. vm_compute. repeat split. eexists; reflexivity. Qed.
